@@ -669,7 +669,7 @@ def judge(traces, by):
             if short_uts:
                 sens["no_progress"] += 1
             else:
-                viol.append((f"{name}:no_progress", f"{name} ({t['id']}) kept calling train_st without reaching its budget: {t['exception']}", replay))
+                viol.append((f"{name}:no_progress", f"{name} ({t['id']}) made no progress towards its budget: {t["exception"]}", replay))
         elif t["exception"]:
             viol.append((f"{name}:exception:{t['exception'].split(' ')[0]}", f"{name} ({t['id']}) raised {t['exception']}", replay))
         accepted = max(verdicts) if verdicts else 0
